@@ -116,3 +116,55 @@ package dnsdata
 //@ func Raux.loadDefaults
 //@ modifies r
 //@ ensures r.ttl == 86400
+
+// ---- C09: text normal form at token level ---------------------------------------------------------------
+// A marshalled line is a sequence of tokens written to the buffer: Lit(string) | Bytes(slice) | Num(n) |
+// Dom(name) | Loc(l) | Lmap(m) | Quoted(x). Separators are Bytes(NSEP). The assumed contracts of the
+// writers below say which token each call appends; the bodies of MarshalText are then verified to emit
+// the fields MarshalMap reads, in the order UnmarshalText expects.
+//@ ghostvar ntok int
+//@ ghostvar tokK seq
+//@ ghostvar tokS (Array Int Str)
+//@ ghostvar tokB (Array Int Slice)
+//@ ghostvar tokN seq
+//@ ufun iptext(slice) slice
+//@ spec tlit(i int, s str) bool = tokK[i] == 1 && tokS[i] == s
+//@ spec tsep(i int) bool = tokK[i] == 2 && tokB[i] == NSEP
+//@ spec tbytes(i int, b slice) bool = tokK[i] == 2 && tokB[i] == b
+//@ spec tnum(i int, v int) bool = tokK[i] == 3 && tokN[i] == v
+//@ spec tdom(i int, d slice) bool = tokK[i] == 4 && tokB[i] == d
+//@ spec tloc(i int, l slice) bool = tokK[i] == 5 && tokB[i] == l
+//@ spec tlmap(i int, a int, b int) bool = tokK[i] == 6 && tokN[i] == a * 256 + b
+//@ spec tquoted(i int, x slice) bool = tokK[i] == 7 && tokB[i] == x
+
+//@ extern bytes Buffer.WriteString
+//@ updates ntok, tokK, tokS
+//@ ensures ntok == old(ntok) + 1 && tokK == upd(old(tokK), old(ntok), 1) && tokS == upd(old(tokS), old(ntok), s)
+//@ extern bytes Buffer.Write
+//@ updates ntok, tokK, tokB
+//@ ensures ntok == old(ntok) + 1 && tokK == upd(old(tokK), old(ntok), 2) && tokB == upd(old(tokB), old(ntok), p)
+//@ extern bytes Buffer.Bytes
+//@ pure
+//@ func putdomtext
+//@ trusted
+//@ updates ntok, tokK, tokB
+//@ ensures ntok == old(ntok) + 1 && tokK == upd(old(tokK), old(ntok), 4) && tokB == upd(old(tokB), old(ntok), a)
+//@ func putloctext
+//@ trusted
+//@ updates ntok, tokK, tokB
+//@ ensures ntok == old(ntok) + 1 && tokK == upd(old(tokK), old(ntok), 5) && tokB == upd(old(tokB), old(ntok), lo)
+//@ func putquotedtext
+//@ trusted
+//@ updates ntok, tokK, tokB
+//@ ensures ntok == old(ntok) + 1 && tokK == upd(old(tokK), old(ntok), 7) && tokB == upd(old(tokB), old(ntok), data)
+//@ extern net IP.MarshalText
+//@ pure
+//@ ensures err == nil ==> result0 == uf.iptext(ip)
+
+// '+' line: +[*.]dom,ip,ttl,,loc,weight — every field MarshalMap reads is printed, the weight always
+//@ func Raddr.MarshalText
+//@ updates ntok, tokK, tokS, tokB, tokN
+//@ flag skip frame
+//@ ensures[head] err == nil ==> tlit(old(ntok), "+") && (r.iswildcard ==> tlit(old(ntok) + 1, "*."))
+//@ ensures[fields] err == nil ==> tdom(old(ntok) + 1 + ite(r.iswildcard, 1, 0), r.dom) && tsep(old(ntok) + 2 + ite(r.iswildcard, 1, 0)) && tbytes(old(ntok) + 3 + ite(r.iswildcard, 1, 0), uf.iptext(r.ip)) && tsep(old(ntok) + 4 + ite(r.iswildcard, 1, 0)) && tnum(old(ntok) + 5 + ite(r.iswildcard, 1, 0), r.ttl) && tsep(old(ntok) + 6 + ite(r.iswildcard, 1, 0)) && tsep(old(ntok) + 7 + ite(r.iswildcard, 1, 0)) && tloc(old(ntok) + 8 + ite(r.iswildcard, 1, 0), r.lo) && tsep(old(ntok) + 9 + ite(r.iswildcard, 1, 0)) && tnum(old(ntok) + 10 + ite(r.iswildcard, 1, 0), r.weight)
+//@ ensures[count] err == nil ==> ntok == old(ntok) + 11 + ite(r.iswildcard, 1, 0)
